@@ -30,7 +30,10 @@ def make_source(pairs, used, kinds=None):
     for k, (g, b) in enumerate(pairs):
         decl, use = KINDS[kinds[k] if kinds else 0]
         n = "v%d" % k
-        lines.append("@group(%d) @binding(%d) %s" % (g, b, decl.format(n=n)))
+        # naga reads unsuffixed literals as i32: indices above i32::MAX need the `u` suffix
+        gs = "%du" % g if (g > 2 ** 31 - 1 or (kinds and (g + k) % 3 == 0)) else "%d" % g
+        bs = "%du" % b if (b > 2 ** 31 - 1 or (kinds and (b + k) % 3 == 1)) else "%d" % b
+        lines.append("@group(%s) @binding(%s) %s" % (gs, bs, decl.format(n=n)))
         if used and use:
             body.append("    " + use.format(n=n))
     lines.append("@compute @workgroup_size(1)\nfn main() {\n%s\n}\n" % "\n".join(body))
